@@ -353,4 +353,71 @@ def x_obs_guards():
     return out, info
 
 
-EXTRACTORS = [("p2p_verify", x_p2p_verify), ("gst_table", x_gst_table), ("obs_guards", x_obs_guards)]
+
+def x_p2p_loop():
+    """the receive loop of p2p.Run around the dispatch switch (executed for real by harness/p2p_run): what happens to an
+    envelope that does not decode, the own-peer-id (loopback) test in front of the switch, and which verification flag the
+    heartbeat verifier is called with.  The loopback test and the flag are EXTRACTED (the model follows the source: a tree
+    without the test makes the theorems about loopback envelopes unprovable); the rest must have the anchored shape."""
+    src = rd("node/pkg/p2p/p2p.go")
+    run = strip_comments(func_body(src, r'^func Run\(', "Run"))
+    info = {}
+    m = re.search(r'for \{\s*\n\s*envelope, err := sub\.Next\(ctx\)\s*\n\s*if err != nil \{\s*\n\s*return [^\n]*\n\s*\}', run)
+    if not m:
+        raise Broken("Run: receive loop head (`for { envelope, err := sub.Next(ctx); if err != nil { return .. }`) not found")
+    loop = run[m.end():]
+    k = loop.find("switch m := msg.Message.(type) {")
+    if k < 0:
+        raise Broken("Run: dispatch switch not found after sub.Next")
+    head = loop[:k]
+    # ---- undecodable envelope: continue
+    u = re.match(r'\s*var msg gossipv1\.GossipMessage\s*\n\s*err = proto\.Unmarshal\(envelope\.Data, &msg\)\s*\n\s*if err != nil \{((?:[^{}]|\n)*?)\}', head)
+    if not u or not re.search(r'\bcontinue\s*$', u.group(1).rstrip()):
+        raise Broken("Run: `var msg; err = proto.Unmarshal(envelope.Data, &msg); if err != nil { ..; continue }` is not the first thing done with an envelope")
+    if re.search(r'<-|gst\.|processSigned', u.group(1)):
+        raise Broken("Run: the undecodable-envelope branch does more than log / count")
+    rest = head[u.end():]
+    info["invalid"] = "continue"
+    # ---- loopback test between decoding and the switch
+    lb = re.search(r'if (?:envelope\.GetFrom\(\) == h\.ID\(\)|h\.ID\(\) == envelope\.GetFrom\(\)) \{((?:[^{}]|\n)*?)\}', rest)
+    if lb:
+        if not re.search(r'\bcontinue\s*$', lb.group(1).rstrip()):
+            raise Broken("Run: the own-peer-id branch does not end in `continue`")
+        if re.search(r'<-|gst\.|processSigned', lb.group(1)):
+            raise Broken("Run: the own-peer-id branch does more than log / count")
+        loopback = True
+        other = rest[:lb.start()] + rest[lb.end():]
+    else:
+        if re.search(r'GetFrom\(\)\s*[!=]=|[!=]=\s*envelope\.GetFrom\(\)', rest):
+            raise Broken("Run: a comparison on envelope.GetFrom() in front of the switch has an unknown shape")
+        loopback = False
+        other = rest
+    info["loopback_guard"] = loopback
+    # nothing else in front of the switch may send, verify or touch the guardian-set state
+    if re.search(r'<-|gst\.|processSigned|\bcontinue\b|\bbreak\b|\breturn\b', other):
+        raise Broken("Run: unexpected statement between envelope decoding and the dispatch switch")
+    if not re.search(r'\bh, err := libp2p\.New\(', run):
+        raise Broken("Run: `h, err := libp2p.New(` (the host whose ID the loopback test compares with) not found")
+    # ---- the heartbeat verifier's arguments
+    sw = loop[k:]
+    calls = re.findall(r'processSignedHeartbeat\(([^()]*(?:\([^()]*\)[^()]*)*)\)', sw)
+    if len(calls) != 1:
+        raise Broken("Run: %d calls of processSignedHeartbeat in the switch, 1 expected" % len(calls))
+    args = [a.strip() for a in calls[0].split(",")]
+    if len(args) != 5 or args[:4] != ["envelope.GetFrom()", "s", "gs", "gst"]:
+        raise Broken("Run: processSignedHeartbeat arguments %r not understood" % (args,))
+    flag = {"disableHeartbeatVerify": "flag", "!disableHeartbeatVerify": "negb flag", "true": "true", "false": "false"}.get(args[4])
+    if flag is None:
+        raise Broken("Run: verification flag %r passed to processSignedHeartbeat not understood" % args[4])
+    if not re.search(r'\bdisableHeartbeatVerify bool\b', src[:src.index("func Run(") + 900]):
+        raise Broken("Run: parameter `disableHeartbeatVerify bool` not found")
+    info["hb_disable_arg"] = args[4]
+    out = ("(* p2p.Run receive loop: an envelope that does not decode is skipped (anchored); own-peer-id test in front of the switch: %s *)\n"
+           "Definition p2p_loop_loopback_guard : bool := %s.\n"
+           "(* processSignedHeartbeat(envelope.GetFrom(), s, gs, gst, %s): flag = Run's disableHeartbeatVerify parameter *)\n"
+           "Definition p2p_loop_hb_disable (flag : bool) : bool := %s.\n"
+           % ("present" if loopback else "ABSENT", "true" if loopback else "false", args[4], flag))
+    return out, info
+
+
+EXTRACTORS = [("p2p_verify", x_p2p_verify), ("gst_table", x_gst_table), ("obs_guards", x_obs_guards), ("p2p_loop", x_p2p_loop)]
